@@ -16,6 +16,7 @@ type Fragment struct {
 	Mdat        *MdatBox
 	Children    []Box       // All top-level boxes in order
 	nextTrunNr  uint32      // To handle multi-trun cases
+	mdatLead    uint64      // Bytes in mdat before the first sample of a decoded single-trun fragment
 	EncOptimize EncOptimize // Bit field with optimizations being done at encoding
 	StartPos    uint64      // Start position in file added by parser
 }
@@ -80,8 +81,39 @@ func (f *Fragment) AddChild(b Box) {
 		f.Moof = box
 	case *MdatBox:
 		f.Mdat = box
+		f.mdatLead = f.leadingMdatBytes()
 	}
 	f.Children = append(f.Children, b)
+}
+
+// leadingMdatBytes returns the number of mdat payload bytes that precede the first sample
+// of a single-trun fragment whose trun data offset is relative to the start of the moof box.
+// Such bytes are legal in a decoded fragment and must be kept when the data offset is recalculated.
+func (f *Fragment) leadingMdatBytes() uint64 {
+	if f.Moof == nil || f.Mdat == nil {
+		return 0
+	}
+	var tfhd *TfhdBox
+	var trun *TrunBox
+	nrTruns := 0
+	for i, traf := range f.Moof.Trafs {
+		nrTruns += len(traf.Truns)
+		if len(traf.Truns) > 0 && trun == nil {
+			tfhd, trun = traf.Tfhd, traf.Trun
+			if i > 0 && tfhd != nil && !tfhd.DefaultBaseIfMoof() {
+				return 0 // base is not the start of the moof box
+			}
+		}
+	}
+	if nrTruns != 1 || tfhd == nil || tfhd.HasBaseDataOffset() || !trun.HasDataOffset() {
+		return 0
+	}
+	payloadStart := int64(f.Moof.Size() + f.Mdat.HeaderSize())
+	lead := int64(trun.DataOffset) - payloadStart
+	if lead <= 0 || uint64(lead) > f.Mdat.Size()-f.Mdat.HeaderSize() {
+		return 0
+	}
+	return uint64(lead)
 }
 
 // AddEmsg inserts an emsg box at the end of a sequence of emsg boxes at the start of the fragment.
@@ -346,7 +378,7 @@ func (f *Fragment) SetTrunDataOffsets() {
 	sort.Slice(truns, func(i, j int) bool {
 		return truns[i].writeOrderNr < truns[j].writeOrderNr
 	})
-	dataOffset := f.Moof.Size() + f.Mdat.HeaderSize()
+	dataOffset := f.Moof.Size() + f.Mdat.HeaderSize() + f.mdatLead
 	for _, trun := range truns {
 		trun.DataOffset = int32(dataOffset)
 		dataOffset += trun.SizeOfData()
